@@ -8,6 +8,10 @@ import OV.Drivers.Loop
     `C15 touches <api>`          → comma-separated carriers of the API's frame
     `C15 replace <proto|ir> <0|1>` → `ret=…;changed=<0|1>` for replace_functions on a model with (1) / without (0) local functions
     `C15 inline <0|1>`           → `ret=…;changed=<0|1>` (1 = model-local functions present)
+    `C15 track <api> <api> …`    → `cur=<orig|fresh>;orig=<k>[~];res=<j>` for the history of those proto-entry calls
+       (`protoTrack`): whether the object the last call produced IS the caller's original; the number k of leading
+       calls whose result the caller's original holds afterwards (`~`: up to serde write-through); j = the least
+       stage whose content equals the final result (j < n iff the trailing calls are `rewrite(·, [])`)
     api ∈ optimize fold_constants remove_unused_nodes remove_unused_functions rewrite_empty rewrite_rules
           convert_version convert_version_old replace_functions -/
 namespace OV.Drivers.C15
@@ -30,8 +34,30 @@ def showRec (r : Rec String) : String :=
 def showOutcome (o : Outcome (Rec String)) : String :=
   "ret=" ++ showRet o.ret ++ ";arg:" ++ showRec o.argAfter ++ ";res:" ++ showRec o.result
 
+/-- Symbolic transformation tagged with the API, so that the stages of a history are distinguishable. -/
+def symTn : Api → Opts String → Rec String → Rec String := fun f _ m c => "T_" ++ f.srcName ++ "(" ++ m c ++ ")"
+
+def parseHistory (as : List String) : Option (History String) :=
+  as.mapM (fun a => (parseApi a).map (fun f => (f, symOpts)))
+
+def sameRec (a b : Rec String) : Bool := Carrier.all.all (fun c => a c == b c)
+def sameRecUpToAlias (a b : Rec String) : Bool := Carrier.all.all (fun c => a c == b c || a c == b c ++ "~")
+
+def trackReport (h : History String) : String :=
+  let t := protoTrack symSerde symTn h symArg
+  let stage (k : Nat) := protoChain symSerde symTn (h.take k) symArg
+  let ks := List.range (h.length + 1)
+  let k := (ks.find? (fun k => sameRecUpToAlias t.orig (stage k))).map toString |>.getD "?"
+  let tilde := if Carrier.all.any (fun c => (t.orig c).endsWith "~") then "~" else ""
+  let j := (ks.find? (fun k => sameRec t.current (stage k))).map toString |>.getD "?"
+  "cur=" ++ (if t.cur.isNone then "orig" else "fresh") ++ ";orig=" ++ k ++ tilde ++ ";res=" ++ j
+
 def handle (args : List String) : String :=
   match args with
+  | "track" :: as =>
+    (match parseHistory as with
+     | some h => trackReport h
+     | none => "bad-op")
   | ["path", "convert_version_old", "proto"] => showOutcome (protoConvertOld symSerde symT symOpts symArg)
   | ["path", api, entry] =>
     match parseApi api, entry with
